@@ -311,6 +311,61 @@ def rand_cli(rng, idx):
     return sc
 
 
+def deep_cli(rng):
+    """deep, clean, high-quality coverage of linked heterozygous SNVs: other-genotype masses of 1e-15 .. 1e-40"""
+    return {"kind": "cli", "deep": True, "seed": rng.randrange(10 ** 9), "nsamples": rng.choice([1, 1, 2]), "trio": False,
+            "q": rng.choice([0, 0, 10, 30]), "nopriors": rng.random() < 0.5, "constant": 0.0, "prioroutput": rng.random() < 0.3,
+            "nchrom": 1, "nvars": rng.randint(2, 4), "nreads": 0, "perhap": rng.randint(3, 8), "bq": rng.randint(35, 45),
+            "err": 0.0, "maxcov": 15, "multiallelic": False, "recombrate": 1.26, "empty_sample": False,
+            "select_chrom": False, "select_sample": False}
+
+
+def writer_sc(rng):
+    """likelihood triples given directly to GenotypeVcfWriter.write_genotypes: other masses 1e-3 .. 1e-300, also exact 0"""
+    trip = []
+    for _ in range(24):
+        k1, k2 = rng.choice([3, 8, 14, 15, 16, 17, 20, 30, 40, 100, 300]), rng.choice([5, 16, 17, 25, 60, 200, 320])
+        m1, m2 = rng.choice([1.0, 2.5, 7.0]) * 10.0 ** -k1, rng.choice([1.0, 3.0]) * 10.0 ** -k2
+        if rng.random() < 0.15:
+            m2 = 0.0
+        if rng.random() < 0.1:
+            m1 = m2 = 0.0
+        t = [m1, m2]
+        t.insert(rng.randrange(3), None)
+        trip.append(t)
+    return {"kind": "writer", "triples": trip}
+
+
+def _writer_events(sc):
+    """GenotypeVcfWriter.write_genotypes on a table whose likelihoods are set by the driver; GT by the real determine_genotype"""
+    from .. import world
+    from whatshap.vcf import VcfReader, GenotypeVcfWriter
+    from whatshap.core import PhredGenotypeLikelihoods
+    from whatshap.cli.genotype import determine_genotype
+    d = tempfile.mkdtemp(dir=_scratch(), prefix="c08w-")
+    try:
+        n = len(sc["triples"])
+        recs = [{"chrom": "chr1", "pos": 10 + 5 * j, "id": ".", "ref": "A", "alt": "C", "qual": ".", "filter": ".", "info": ".",
+                 "fmt": ["GT"], "calls": [["0/1"]]} for j in range(n)]
+        world.write_vcf(os.path.join(d, "in.vcf"), ["A"], [("chr1", 1000)], recs)
+        gls = []
+        for t in sc["triples"]:
+            rest = sum(x for x in t if x is not None)
+            gls.append(PhredGenotypeLikelihoods([1.0 - rest if x is None else x for x in t]))
+        with VcfReader(os.path.join(d, "in.vcf"), genotype_likelihoods=False, ignore_genotypes=True) as rd:
+            tables = list(rd)
+        table = tables[0]
+        table.set_genotype_likelihoods_of("A", gls)
+        table.set_genotypes_of("A", [determine_genotype(g, 0.0) for g in gls])
+        with open(os.path.join(d, "out.vcf"), "w") as fh:
+            with GenotypeVcfWriter(command_line=None, in_path=os.path.join(d, "in.vcf"), out_file=fh) as w:
+                w.write_genotypes("chr1", table, False)
+        _, _, out_recs = world.read_vcf_text(os.path.join(d, "out.vcf"))
+        return [_call_event(r["calls"][0], 0, "writer") for r in out_recs]
+    finally:
+        shutil.rmtree(d, ignore_errors=True)
+
+
 def _gt_code(s):
     s = s.strip()
     if s in (".", "./."):
@@ -322,9 +377,17 @@ def _gt_code(s):
     return -2
 
 
+def _gl_halfwidth(x):
+    """half width of the set of reals that are written as this GL text: 6 significant digits (%g) of a 32-bit float"""
+    if x == 0:
+        return Decimal("1e-12")
+    mag = math.floor(math.log10(abs(x)))
+    return Decimal(5) * Decimal(10) ** (mag - 6) + Decimal(abs(x)) * Decimal(2) ** -24
+
+
 def _call_event(call, q, which):
     e = {"ev": "Call", "file": which, "q": q, "L": [], "gt": _gt_code(call.get("GT", "?")), "gq": -2, "mp": 0,
-         "masszero": False}
+         "mp_lo": 0, "mp_hi": 0, "masszero": False}
     gq = call.get("GQ", "?")
     if gq == ".":
         e["gq"] = -1
@@ -338,11 +401,17 @@ def _call_event(call, q, which):
         probs = [Decimal(0) if x <= -1000 else Decimal(10) ** Decimal(repr(x)) for x in gl]
         e["L"] = [int((p * 10 ** 6).to_integral_value(rounding="ROUND_HALF_EVEN")) for p in probs]
         if e["gt"] in (0, 1, 2):
-            mass = sum((p for i, p in enumerate(probs) if i != e["gt"]), Decimal(0))
-            if mass <= 0:
+            # the other mass in the log domain, from the written GLs themselves (never 1 - max)
+            others = [x for i, x in enumerate(gl) if i != e["gt"] and x > -1000]
+            if not others:
                 e["masszero"] = True
             else:
-                e["mp"] = int((Decimal(-10000) * mass.log10()).to_integral_value(rounding="ROUND_HALF_EVEN"))
+                def mphred(shift):
+                    m = sum((Decimal(10) ** (Decimal(repr(x)) + shift * _gl_halfwidth(x)) for x in others), Decimal(0))
+                    return Decimal(-10000) * m.log10()
+                e["mp"] = int(mphred(0).to_integral_value(rounding="ROUND_HALF_EVEN"))
+                e["mp_lo"] = int(mphred(1).to_integral_value(rounding="ROUND_FLOOR"))
+                e["mp_hi"] = int(mphred(-1).to_integral_value(rounding="ROUND_CEILING"))
     return e
 
 
@@ -380,6 +449,20 @@ def _cli_events(sc):
                 else:
                     hp = [[rng.randint(0, 1) for _ in variants[ch]] for _ in range(2)]
                 haps[(ch, s)] = hp
+                if sc.get("deep"):
+                    hp = [[1] * len(variants[ch]), [0] * len(variants[ch])]
+                    for j in range(len(variants[ch])):
+                        if rng.random() < 0.3:
+                            hp[0][j], hp[1][j] = 0, 1
+                    haps[(ch, s)] = hp
+                    first, last = variants[ch][0].pos, variants[ch][-1].pos
+                    for h in (0, 1):
+                        hap = world.Haplotype(ref[ch], variants[ch], hp[h])
+                        for _ in range(sc["perhap"]):
+                            pos0, cig, seq = hap.read(rng.randint(0, first), rng.randint(last + 1, length))
+                            reads.append({"name": f"r{n}", "ref": ci, "pos": pos0, "cigar": world.cigar_str(cig), "seq": seq,
+                                          "qual": chr(33 + sc["bq"]) * len(seq), "rg": s, "mapq": 60})
+                            n += 1
                 for _ in range(0 if sc["empty_sample"] and s == samples[-1] else sc["nreads"]):
                     h = rng.randint(0, 1)
                     al = [a if rng.random() >= sc["err"] else 1 - a for a in hp[h]]
@@ -467,7 +550,10 @@ RULE = ("three scenario kinds. (hmm) one instance SHAPE of the genotyping HMM - 
         "TLC-enumerated (likelihood triple, threshold) pairs on the grid 1/20 (thorough: 1/40) given to the real determine_genotype. (cli) one seeded "
         "world (1-3 samples, optional trio PED, 1-2 chromosomes, 1-6 SNVs, 0-20 reads per sample with errors) run through "
         "`whatshap genotype` in-process with a phred threshold from {0,1,2,3,6,10,13,20,30,50}, priors / --no-priors / --constant, "
-        "chromosome and sample selection, prior output; non-trivial = the outputs contain both a called and an uncalled genotype")
+        "chromosome and sample selection, prior output; plus deep clean worlds (3-8 error-free reads per haplotype at base quality 35-45 over "
+        "2-4 linked heterozygous SNVs: other-genotype masses 1e-15..1e-40, GQ 150-400); non-trivial = the outputs contain both a called "
+        "and an uncalled genotype, or a call whose other mass is below 1e-15. (writer) 24 extreme likelihood triples (other masses "
+        "1e-3..1e-320 and exact 0) set on a VariantTable and written by GenotypeVcfWriter.write_genotypes directly")
 ASSUMPTIONS = [
     "TLC explores GenoHMM's state graph completely and prints every (state, successor) pair once (checked: printed edges = generated states - initial states)",
     "the posterior clause is decided by TLC's graph + a generic 40-line sum-product in 60-digit decimal arithmetic in the driver (TLC has no reals); TLC judges the logged scaled deviation",
@@ -582,6 +668,10 @@ def scenarios(ctx):
     # ---- (cli) worlds ----
     for i in range(60 if q else 2500):
         scs.append(rand_cli(rng, i))
+    for i in range(16 if q else 300):
+        scs.append(deep_cli(rng))
+    for i in range(4 if q else 60):
+        scs.append(writer_sc(rng))
     return scs
 
 
@@ -590,6 +680,8 @@ def drive(sc):
         return _determine_events(sc)
     if sc["kind"] == "cli":
         return _cli_events(sc)
+    if sc["kind"] == "writer":
+        return _writer_events(sc)
     graph = _load_graph(sc)
     return [_posterior_event(sc["shape"], graph, nums) for nums in sc["draws"]]
 
@@ -608,16 +700,23 @@ def post(ctx, scs, per_tid):
     ctx.notes["posterior_instances_compared"] = draws
     ctx.notes["posterior_worst_relative_deviation_1e-12"] = worst
     ctx.notes["vcf_calls_judged"] = {"total": calls, "called": called, "no_call": calls - called}
+    hi = [e["mp"] for evs in per_tid.values() for e in evs if e.get("ev") == "Call" and e["gt"] >= 0 and e.get("file") != "writer"]
+    ctx.notes["cli_calls_with_other_mass_below_1e-15"] = sum(1 for m in hi if m > 150000)
+    ctx.notes["cli_max_true_GQ"] = max(hi) // 1000 if hi else 0
     return []
 
 
 def nontrivial(sc, events):
     if sc["kind"] == "determine":
         return True
+    if sc["kind"] == "writer":
+        return any(e.get("mp", 0) > 150000 for e in events)
     if sc["kind"] == "hmm":
         cols = [c[0] for r in sc["shape"]["reads"] for c in r["cells"]]
         return len(cols) != len(set(cols))
     gts = [e["gt"] for e in events if e.get("ev") == "Call"]
+    if sc.get("deep"):
+        return any(e.get("ev") == "Call" and e["gt"] >= 0 and e["mp"] > 150000 for e in events)
     return any(g >= 0 for g in gts) and any(g == -1 for g in gts)
 
 
@@ -627,8 +726,10 @@ def signature(sc, events, clause):
         return f"hmm nInd={s['nInd']} trios={len(s['trios'])}"
     if sc["kind"] == "determine":
         return "determine_genotype"
+    if sc["kind"] == "writer":
+        return "GenotypeVcfWriter.write_genotypes direct"
     files = sorted({e.get("file", "") for e in events if e.get("ev") in ("Call", "Run")})
-    return f"cli trio={sc['trio']} nopriors={sc['nopriors']} files={','.join(files)}"
+    return f"cli{' deep' if sc.get('deep') else ''} trio={sc['trio']} nopriors={sc['nopriors']} files={','.join(files)}"
 
 
 def selftest_corrupt(events):
